@@ -642,7 +642,7 @@ def rule_R5(text, log):
         # pub fns that mention private fields, so everything is made module-private
         text = re.sub(r'\bpub(?:\((?:crate|super)\))? ', '', text)
         log.append({'rule': 'R5', 'before': 'pub / pub(crate) / pub(super)', 'after': '', 'count': n})
-    for p in (r'super::error::', r'crate::parser::error::', r'crate::parser::(?:strings|array|inline_table|trivia|numbers)::'):
+    for p in (r'super::error::', r'crate::parser::error::', r'crate::parser::(?:strings|array|inline_table|trivia|numbers|table)::'):
         n = len(re.findall(p, text))
         if n:
             text = re.sub(p, '', text)
